@@ -68,6 +68,9 @@ META["rule"] += (
 META["rule"] += (
     " " + 'Added after the eighth round: core-periphery networks (the all-neighbour core numbered first, one or two chunks long); pool calls with three targets and with none.')
 
+META["rule"] += (
+    " " + 'Added after the ninth round: pool call with a target list that names a node twice.')
+
 MEASURES = [
     ("newman_betweenness", {}),
     ("nsi_newman_betweenness", {}),
@@ -552,7 +555,9 @@ def pool_cases(ctx):
                     {"nsi": False}, {"nsi": False, "sources": src,
                                      "targets": tgt},
                     # fewer targets than workers; none at all
-                    {"targets": tgt[:3]}, {"targets": []}]
+                    {"targets": tgt[:3]}, {"targets": []},
+                    # a list that names a node more than once, in any order
+                    {"targets": [tgt[-1], tgt[0], tgt[1], tgt[0]]}]
         d = tempfile.mkdtemp(dir=os.environ.get("PVM_TMP", "."))
         script = os.path.join(d, "pool_case.py")
         with open(script, "w") as fh:
